@@ -46,6 +46,40 @@ Definition vector_entries (k : string) (b1 : string) (res : list (string * pv)) 
                     else st)
                  (split_on "<" vect) (res, 0)).
 
+(* the string state of the two scanners (ParseBLOB_Recursive, SplitOutsideQuotes): inside a "double quoted" text; the previous
+   character was a backslash (a quote after a backslash does not open or close a text) *)
+Record qst := { q_in : bool; q_esc : bool }.
+Definition qst0 : qst := {| q_in := false; q_esc := false |}.
+Definition qstep (st : qst) (c : ascii) : qst :=
+  {| q_in := if Ascii.eqb c DQ && negb (q_esc st) then negb (q_in st) else q_in st; q_esc := Ascii.eqb c BSL |}.
+
+(* SplitOutsideQuotes(text, separator): split at the separators that are not inside a quoted text *)
+Fixpoint qsplit_st (sep : ascii) (st : qst) (s : string) : list string :=
+  match s with
+  | EmptyString => [""]
+  | String x r =>
+      let st' := qstep st x in
+      match qsplit_st sep st' r with
+      | [] => [""]
+      | h :: t => if Ascii.eqb x sep && negb (q_in st') then "" :: h :: t else String x h :: t
+      end
+  end.
+Definition qsplit (sep : ascii) (s : string) : list string := qsplit_st sep qst0 s.
+
+(* one ';'-separated piece of an outside text: key=value, key=<e1>, <e2> ..., or nothing *)
+Definition vstep (res : list (string * pv)) (a : string) : list (string * pv) :=
+  if contains "=" a then
+    let b := split_on "=" a in
+    match b with
+    | b0 :: b1 :: _ =>
+        if Nat.ltb 0 (String.length (py_strip (remove_char "," (mass_replace b1)))) then
+          if contains "<" b1 && contains ">" b1 then vector_entries b0 b1 res
+          else upsert String.eqb (py_strip (mass_replace b0)) (PStr (py_strip (mass_replace b1))) res
+        else res
+    | _ => res
+    end
+  else res.
+
 (* Get_ValuesFromOutside *)
 Definition values_from_outside (o : string) : option (list (string * pv)) :=
   if no_char ";" o && negb (no_char ":" o) then
@@ -53,21 +87,10 @@ Definition values_from_outside (o : string) : option (list (string * pv)) :=
     a0 <- nth_str 0 all ;; a1 <- nth_str 1 all ;; a2 <- nth_str 2 all ;;     (* IndexError *)
     Some [("id", PStr (py_strip (mass_replace a0))); ("name", PStr (py_strip (mass_replace a1))); ("type", PStr (py_strip (mass_replace a2)))]
   else
-    Some (fold_left (fun res a =>
-            if contains "=" a then
-              let b := split_on "=" a in
-              match b with
-              | b0 :: b1 :: _ =>
-                  if Nat.ltb 0 (String.length (py_strip (remove_char "," (mass_replace b1)))) then
-                    if contains "<" b1 && contains ">" b1 then vector_entries b0 b1 res
-                    else upsert String.eqb (py_strip (mass_replace b0)) (PStr (py_strip (mass_replace b1))) res
-                  else res
-              | _ => res
-              end
-            else res) (split_on ";" o) []).
+    Some (fold_left vstep (qsplit ";" o) []).
 
-Record frame := { f_out : string (* reversed *); f_children : list (string * pv) }.
-Definition frame0 : frame := {| f_out := ""; f_children := [] |}.
+Record frame := { f_out : string (* reversed *); f_children : list (string * pv); f_st : qst }.
+Definition frame0 : frame := {| f_out := ""; f_children := []; f_st := qst0 |}.
 
 (* result.update(res); result.update(children) *)
 Definition finalize (f : frame) : option pv :=
@@ -75,10 +98,11 @@ Definition finalize (f : frame) : option pv :=
   Some (PDict (fold_left (fun acc kv => upsert String.eqb (fst kv) (snd kv) acc) (f_children f) res)).
 
 Definition add_child (f : frame) (v : pv) : frame :=
-  {| f_out := f_out f; f_children := upsert String.eqb ("child_" ++ dec (List.length (f_children f))) v (f_children f) |}.
+  {| f_out := f_out f; f_children := upsert String.eqb ("child_" ++ dec (List.length (f_children f))) v (f_children f); f_st := f_st f |}.
 
-(* ParseBLOB_Recursive as a stack machine over the characters: '{' opens a child, '}' closes the current dictionary (at
-   the top level: returns, the rest of the text is ignored), the end of the text closes every open dictionary *)
+(* ParseBLOB_Recursive as a stack machine over the characters: outside a "quoted text" '{' opens a child and '}' closes the
+   current dictionary (at the top level: returns, the rest of the text is ignored); inside a quoted text every character
+   belongs to the outside text; the end of the text closes every open dictionary *)
 Fixpoint close_all (cur : frame) (stack : list frame) : option pv :=
   match stack with
   | [] => finalize cur
@@ -89,13 +113,16 @@ Fixpoint parse_run (s : string) (cur : frame) (stack : list frame) : option pv :
   match s with
   | EmptyString => close_all cur stack
   | String c r =>
-      if Ascii.eqb c "{" then parse_run r frame0 (cur :: stack)
+      let st' := qstep (f_st cur) c in
+      let cur' := {| f_out := f_out cur; f_children := f_children cur; f_st := st' |} in
+      if q_in st' then parse_run r {| f_out := String c (f_out cur); f_children := f_children cur; f_st := st' |} stack
+      else if Ascii.eqb c "{" then parse_run r frame0 (cur' :: stack)
       else if Ascii.eqb c "}" then
         match stack with
         | [] => finalize cur
         | p :: st => v <- finalize cur ;; parse_run r (add_child p v) st
         end
-      else parse_run r {| f_out := String c (f_out cur); f_children := f_children cur |} stack
+      else parse_run r {| f_out := String c (f_out cur); f_children := f_children cur; f_st := st' |} stack
   end.
 
 Definition parse_blob (s : string) : option pv := parse_run s frame0 [].
